@@ -344,7 +344,11 @@ func (s MsgServer) UnbondedOracle(c context.Context, msg *types.MsgUnbondedOracl
 	s.DelOracleAddrByExternalAddr(ctx, oracle.ExternalAddress)
 	s.DelOracleAddrByBridgerAddr(ctx, oracle.GetBridger())
 	s.DelOracle(ctx, oracle.GetOracle())
-	s.DelLastEventNonceByOracle(ctx, oracleAddr)
+	// the oracle's event nonce is forgotten only if none of its votes is still pending: an oracle that bonds again
+	// continues after the events it has already voted for and cannot vote for a pending event nonce a second time
+	if s.GetLastEventNonceByOracle(ctx, oracleAddr) <= s.GetLastObservedEventNonce(ctx) {
+		s.DelLastEventNonceByOracle(ctx, oracleAddr)
+	}
 
 	return &types.MsgUnbondedOracleResponse{}, nil
 }
